@@ -232,7 +232,7 @@ def _coq_make(d, jobs, timeout):
     if (not os.path.exists(mk)) or os.path.getmtime(mk) < os.path.getmtime(cp):
         sh(["coq_makefile", "-f", "_CoqProject", "-o", "Makefile.coq"], cwd=d, check=True)
     # every single file is limited (a runaway tactic must not hang the check): VERIF_COQC_TIMEOUT seconds
-    per_file = os.environ.get("VERIF_COQC_TIMEOUT", "900")
+    per_file = os.environ.get("VERIF_COQC_TIMEOUT", "400")
     rc, out, err = sh(["make", "-f", "Makefile.coq", "-k", "-j%d" % jobs, "COQC=timeout %s coqc" % per_file], cwd=d, timeout=timeout)
     return rc, out + "\n" + err
 
